@@ -10,6 +10,7 @@ import (
 	"github.com/mimecast/dtail/internal/config"
 	"github.com/mimecast/dtail/internal/mapr"
 	"github.com/mimecast/dtail/internal/source"
+	"github.com/mimecast/dtail/verif/explore"
 	"github.com/mimecast/dtail/verif/vrt"
 )
 
@@ -84,6 +85,69 @@ func c16RunBatch(c *Ctx, cases []c16Case, idx *int) {
 		c.Count(cs.Handler + "|" + cs.Stream)
 		c.Violation(c16Sig(cs, res.Fail.Error()), fmt.Sprintf("handler %s, server bytes %q: %s", cs.Handler, cs.Stream, res.Fail.Error()), cs)
 		*idx++
+	}
+}
+
+// c16TearDown: hidden messages arrive while the connection is being torn down for another reason (interrupt,
+// time-out, the other copy direction ending): the transport's copy goroutine is inside Write, another goroutine
+// calls Shutdown, a third reads the handler's commands - all schedules within two deviations.
+func c16TearDown(c *Ctx) {
+	streams := []string{".syn close connection" + c16Delim, ".syn close connection" + c16Delim + ".syn close connection" + c16Delim,
+		"REMOTE|h|100|1|f|x\n" + c16Delim + ".syn close connection" + c16Delim, "SERVER|h|ERROR|boom\n" + c16Delim}
+	for _, kind := range []string{"client", "mapr", "health"} {
+		for _, stream := range streams {
+			for _, twoShutdowns := range []bool{false, true} {
+				kind, stream, twoShutdowns := kind, stream, twoShutdowns
+				sc := &explore.Scenario{Name: "c16-teardown", Params: fmt.Sprintf("%s %q shutdowns=%v", kind, stream, twoShutdowns), Agg: "c16-teardown:" + kind,
+					MaxSteps: 200000, Horizon: 10 * time.Minute}
+				sc.Run = func(cfg vrt.Config) (string, string, vrt.Result) {
+					res := vrt.Run(cfg, func() {
+						args := DefaultArgs()
+						args.Logger = "none"
+						args.LogLevel = "error"
+						StartEnv(source.Client, &args, nil)
+						var h chandlers.Handler
+						switch kind {
+						case "client":
+							h = chandlers.NewClientHandler("srv1")
+						case "health":
+							h = chandlers.NewHealthHandler("srv1")
+						case "mapr":
+							q, _ := mapr.NewQuery("select count(x),sum(y) group by k")
+							h = chandlers.NewMaprHandler("srv1", q, mapr.NewGlobalGroupSet())
+						}
+						done := vrt.Make[struct{}]("joined", 4)
+						n := 3
+						vrt.Go("server-bytes", func() { h.Write([]byte(stream)); done.Send("j", struct{}{}) })
+						vrt.Go("tear-down", func() { h.Shutdown(); done.Send("j", struct{}{}) })
+						vrt.Go("command-reader", func() {
+							buf := make([]byte, 1024)
+							for {
+								if _, err := h.Read(buf); err != nil {
+									break
+								}
+							}
+							done.Send("j", struct{}{})
+						})
+						if twoShutdowns {
+							n++
+							vrt.Go("tear-down-2", func() { h.Shutdown(); done.Send("j", struct{}{}) })
+						}
+						for i := 0; i < n; i++ {
+							done.Recv("join")
+						}
+						vrt.Sleep("settle", 6*time.Second)
+					})
+					if res.Fail != nil {
+						return "fail:" + res.Fail.Kind, res.Fail.Error(), res
+					}
+					return "ok", "", res
+				}
+				c.Explore(sc, 2, func(msg string, v *explore.Violation) string {
+					return c16Sig(c16Case{Handler: kind, Stream: stream}, msg)
+				})
+			}
+		}
 	}
 }
 
@@ -168,9 +232,11 @@ func init() {
 		Rule: "server byte streams enumerated exhaustively: every message of <=4 (quick) / <=5 (thorough) tokens over a 22-token alphabet (incl. CR and CRLF) (record words, '|', '.', the hidden close message, numbers, severities, " +
 			"newline, the 0xAC message delimiter, the aggregate delimiters, an escape sequence), 30 well-formed/nearly well-formed records followed by every record or token, each record split across two Write calls " +
 			"at every byte; each stream is fed to the real ClientHandler, MaprHandler and HealthHandler twice (colours off/on) under the controlled scheduler; oracle: no panic in any goroutine and " +
-			"strip(coloured) == strip(uncoloured) where strip removes SGR escape sequences (applied to both sides); non-trivial = the stream makes the client print something",
-		Assumptions: []string{"output goes through the real stdout logger into a virtual stdout; canonical schedule per stream"},
+			"strip(coloured) == strip(uncoloured) where strip removes SGR escape sequences (applied to both sides); non-trivial = the stream makes the client print something; " +
+			"plus, under ALL schedules within two deviations: a stream with the hidden close message written to each handler while one or two other goroutines shut the handler down and a third reads its commands (the tear-down of a connection): no panic, no deadlock",
+		Assumptions: []string{"output goes through the real stdout logger into a virtual stdout; canonical schedule per stream (all schedules for the tear-down scenarios)"},
 		Run: func(c *Ctx) {
+			c16TearDown(c)
 			all := c16Cases(c.Thorough())
 			var mine []c16Case
 			for _, cs := range all {
